@@ -525,3 +525,87 @@ func doRecvEmpty(w *W, c *c6Ctx, recv func(*c6Ctx) ([]byte, error)) bool {
 	}
 	return false
 }
+
+// c06UnsubRace: a publication is on its way into a SUB context (from a
+// scripted publisher, so that the arrival is a few steps long) while an
+// unrelated topic of that context is unsubscribed: the publication matches a
+// subscription the context has before and after, so it is delivered - exactly
+// once, whichever of the two got there first, and the Unsubscribe returns.
+func c06UnsubRace(w *W) {
+	useCtx := w.Choose(simrt.SShape, 2) == 0
+	rounds := 2 + w.Choose(simrt.SShape, 6)
+	qlen := []int{1, 2, 128}[w.Choose(simrt.SShape, 3)]
+	w.SetShape("ctx", useCtx)
+	w.SetShape("rounds", rounds)
+	w.SetShape("qlen", qlen)
+	mn := w.UseMsgNet()
+	addr := w.Addr("msg")
+	s := w.Sock("sub")
+	defer s.Close()
+	mustSet(w, s, mangos.OptionReadQLen, qlen)
+	var obj interface {
+		SetOption(string, interface{}) error
+		Recv() ([]byte, error)
+	} = s
+	if useCtx {
+		c, err := s.OpenContext()
+		if err != nil {
+			w.Failf("HARNESS/ctx", "%v", err)
+			return
+		}
+		obj = c
+	}
+	mustSet(w, obj, mangos.OptionSubscribe, "keep/")
+	mustSet(w, obj, mangos.OptionRecvDeadline, 5*time.Millisecond)
+	if err := w.ListenOn(s, addr); err != nil {
+		w.Failf("HARNESS/listen", "%v", err)
+		return
+	}
+	p := mn.Connect(addr)
+	w.Settle()
+	if p == nil {
+		w.Failf("HARNESS/connect", "no connection")
+		return
+	}
+	for r := 0; r < rounds && !w.Failed(); r++ {
+		mustSet(w, obj, mangos.OptionSubscribe, "other/")
+		w.Settle()
+		body := fmt.Sprintf("keep/%d", r)
+		p.Inject([]byte(body))
+		for k := w.Choose(simrt.SProg, 14); k > 0; k-- {
+			simrt.Yield()
+		}
+		uc := w.Do("Unsubscribe(other/)", func() (interface{}, error) { return nil, obj.SetOption(mangos.OptionUnsubscribe, "other/") })
+		w.Settle()
+		if !uc.Returned() {
+			if !w.WedgeCheck("C12") {
+				w.Failf("C12/call-never-returns:SetOption", "Unsubscribe of an unrelated topic does not return while a publication arrives")
+			}
+			return
+		}
+		if uc.Err != nil {
+			w.Failf("C06/unsubscribe-failed", "Unsubscribe(other/): %v", uc.Err)
+			return
+		}
+		rc := w.Do("Recv", func() (interface{}, error) { return obj.Recv() })
+		rc.Wait(20 * time.Millisecond)
+		w.Settle()
+		if !rc.Returned() || rc.Err != nil || string(rc.Val.([]byte)) != body {
+			w.Failf("C06/matching-message-lost", "the context is subscribed to keep/ throughout; %q arrived while the unrelated topic other/ was being unsubscribed; Recv returned=%v (%q, %v)", body, rc.Returned(), rc.Val, rc.Err)
+			return
+		}
+		rc2 := w.Do("Recv(nothing more)", func() (interface{}, error) { return obj.Recv() })
+		rc2.Wait(20 * time.Millisecond)
+		w.Settle()
+		if rc2.Returned() && rc2.Err == nil {
+			w.Failf("C06/duplicate-or-unexpected", "%q was delivered once already; another Recv returned %q", body, rc2.Val)
+			return
+		}
+		w.Delivery++
+	}
+	w.Probe("unsubscribe-races-an-arriving-publication")
+}
+
+func init() {
+	register(&Scenario{Name: "sub-unsubscribe-races-arrival", Prop: "C06", Horizon: time.Hour, Weight: 3, Run: c06UnsubRace})
+}
